@@ -153,8 +153,6 @@ Definition run_num : dispatcher := fun op args =>
       match as_cexp a with Some e => Some (sx_res sx_value (meval (as_oc oc) e)) | None => Some sx_bad end
     else if opeq op "ex-spec" then
       match as_cexp a with Some e => Some (sx_cv (cval e)) | None => Some sx_bad end
-    else if opeq op "ex-known" then
-      match as_cexp a with Some e => Some (sx_bool (known_C01 (as_oc oc) e)) | None => Some sx_bad end
     else if is_br op then
       match as_rat a with
       | Some x => run_br1 op (as_oc oc) x
